@@ -183,10 +183,8 @@ def to_mono(sf):
     import sympy as sp
     sf = sp.sympify(sf)
     coeff, rest = sf.as_independent(sp.pi, as_Add=False)
-    if not coeff.is_Number or coeff.has(sp.oo, sp.nan, sp.zoo):
-        coeff = sp.nsimplify(coeff) if coeff.is_number and coeff.is_Rational else coeff
-        if not coeff.is_Number:
-            raise ValueError(f"scale factor {sf!r}: coefficient {coeff!r} is not a number")
+    if not (coeff.is_Rational or coeff.is_Float) or not coeff.is_finite:
+        raise ValueError(f"scale factor {sf!r}: coefficient {coeff!r} is not a finite rational/binary64 number")
     if rest == 1:
         k = 0
     elif rest == sp.pi:
@@ -242,9 +240,11 @@ def dimvec(q):
     return {b: Fr(str(d.get(b, 0))) for b in BASE}
 def si(q, pi):
     """exact SI value of the constant with pi replaced by the rational `pi` (mass is gram-referenced in SymPy)"""
-    sf = sp.sympify(q.scale_factor).subs(sp.pi, sp.Rational(pi.numerator, pi.denominator))
-    r = sp.Rational(sf)
-    return Fr(int(r.p), int(r.q)) / Fr(1000) ** dimvec(q)["mass"]
+    coeff, rest = sp.sympify(q.scale_factor).as_independent(sp.pi, as_Add=False)
+    k = 0 if rest == 1 else 1 if rest == sp.pi else int(rest.exp)
+    assert rest == sp.pi**k and coeff.is_Number, "scale factor is not a*pi**k"
+    r = sp.Rational(coeff)  # a Float is taken as the exact binary rational it stores
+    return Fr(int(r.p), int(r.q)) * pi**k / Fr(1000) ** dimvec(q)["mass"]
 PIS = [Fr(%r), Fr(%r)]
 ''' % (BASE, str(PI_LO + Fr(1, 10**16)), str(PI_HI - Fr(1, 10**16)))
 
